@@ -587,10 +587,12 @@ func (r *Rec) Finish(nPages int) {
 	}
 	for _, l := range r.FileAnnots {
 		if !emb[l.Target] {
-			// not part of C14's statement: recorded only
-			_ = l
+			// backend.Page.AddFileAnnotation: "The file content has been added with EmbedFile"
+			r.curPage = l.Page
+			r.violate("file-annotation-not-embedded", "AddFileAnnotation(%q) on page %d but EmbedFile was never called with that id", l.Target, l.Page)
 		}
 	}
+	r.curPage = -1
 	// bookmarks point to existing pages
 	var walk func(ns []backend.BookmarkNode)
 	walk = func(ns []backend.BookmarkNode) {
